@@ -154,11 +154,12 @@ Proof.
   split; [reflexivity|].
   destruct (eff_major_mk major Hmaj) as (M & HM & ->).
   assert (Hnil : pre_str [] /\ build_str []) by (split; now left). destruct Hnil as [Hn1 Hn2].
-  replace ((118 :: M) ++ [46; 48; 46; 48; 45] ++ ts ++ 45 :: rv)
-    with (mk M [48] [48] (45 :: ts ++ 45 :: rv) [])
-    by (unfold mk; rewrite ?app_nil_r; norm_app; reflexivity).
-  replace ((118 :: M) ++ B ".0.0") with (mk M [48] [48] [] [])
-    by (unfold mk; rewrite ?app_nil_r; norm_app; reflexivity).
+  match goal with |- compare ?a ?b = _ =>
+    replace a with (mk M [48] [48] (45 :: ts ++ 45 :: rv) [])
+      by (unfold mk; rewrite ?app_nil_r; norm_app; reflexivity);
+    replace b with (mk M [48] [48] [] [])
+      by (unfold mk; rewrite ?app_nil_r; norm_app; reflexivity)
+  end.
   rewrite (compare_same_mmp _ _ _ _
              (parse_mk _ _ _ _ _ HM zero_numeral zero_numeral (pre_str_form1 ts rv Hts Hrv) Hn2)
              (parse_mk _ _ _ _ _ HM zero_numeral zero_numeral Hn1 Hn2)) by reflexivity.
@@ -205,12 +206,12 @@ Proof.
   - rewrite (pv_form1 major older ts1 rv1 Ho) in Hpv1. rewrite (pv_form1 major older ts2 rv2 Ho) in Hpv2.
     injection Hpv1 as <-. injection Hpv2 as <-.
     destruct (eff_major_mk major Hmaj) as (M & HM & ->).
-    replace ((118 :: M) ++ [46; 48; 46; 48; 45] ++ ts1 ++ 45 :: rv1)
-      with (mk M [48] [48] (45 :: ts1 ++ 45 :: rv1) [])
-      by (unfold mk; rewrite ?app_nil_r; norm_app; reflexivity).
-    replace ((118 :: M) ++ [46; 48; 46; 48; 45] ++ ts2 ++ 45 :: rv2)
-      with (mk M [48] [48] (45 :: ts2 ++ 45 :: rv2) [])
-      by (unfold mk; rewrite ?app_nil_r; norm_app; reflexivity).
+    match goal with |- compare ?a ?b = _ =>
+      replace a with (mk M [48] [48] (45 :: ts1 ++ 45 :: rv1) [])
+        by (unfold mk; rewrite ?app_nil_r; norm_app; reflexivity);
+      replace b with (mk M [48] [48] (45 :: ts2 ++ 45 :: rv2) [])
+        by (unfold mk; rewrite ?app_nil_r; norm_app; reflexivity)
+    end.
     rewrite (compare_same_mmp _ _ _ _
                (parse_mk _ _ _ _ _ HM zero_numeral zero_numeral (pre_str_form1 ts1 rv1 H1 Hr1) Hn2)
                (parse_mk _ _ _ _ _ HM zero_numeral zero_numeral (pre_str_form1 ts2 rv2 H2 Hr2) Hn2)) by reflexivity.
